@@ -4,6 +4,7 @@ Everything here is purely static: it reads the JSON produced by engine/srfacts a
 questions (dominance, cut-reachability, edge labels, def-use provenance).  No rule logic lives here.
 """
 import json
+import os
 import re
 import sys
 from collections import defaultdict, deque
@@ -773,14 +774,107 @@ def d_is_call_only(whole):
 
 
 # ------------------------------------------------------------------------------------------------
+def _bump(x, loff):
+    """renumber every local mentioned in a JSON fragment (places and index projections)"""
+    if isinstance(x, dict):
+        if 'l' in x and 'p' in x and isinstance(x.get('p'), list):
+            np_ = []
+            for e in x['p']:
+                if isinstance(e, dict) and 'index' in e:
+                    e = dict(e, index=e['index'] + loff)
+                np_.append(e)
+            return dict(x, l=x['l'] + loff, p=np_)
+        return dict((k, _bump(v, loff)) for k, v in x.items())
+    if isinstance(x, list):
+        return [_bump(v, loff) for v in x]
+    return x
+
+
+def inline_new_callees(raw, j, unknown, depth=0, stack=()):
+    """Splice the bodies of local functions that did not exist in the reference tree (helpers a
+    refactoring introduced) into their callers, so path rules keep seeing one control-flow graph.
+    Works on the JSON facts; returns a new body JSON (or the original when nothing was inlined)."""
+    if depth > 3:
+        return j
+    todo = [i for i, b in enumerate(j['blocks'])
+            if b['term']['k'] == 'call' and b['term'].get('local') and b['term'].get('callee') in unknown
+            and b['term']['callee'] in raw and b['term']['callee'] not in stack and b['term']['callee'] != j['path']
+            and raw[b['term']['callee']]['kind'] != 'Closure' and not b['cleanup']]
+    if not todo:
+        return j
+    blocks = [dict(b) for b in j['blocks']]
+    locals_ = list(j['locals'])
+    promoted = list(j.get('promoted', []))
+    for bi in todo:
+        t = blocks[bi]['term']
+        g = inline_new_callees(raw, raw[t['callee']], unknown, depth + 1, stack + (j['path'],))
+        loff, boff, poff = len(locals_), len(blocks), len(promoted)
+        locals_ += g['locals']
+        promoted += g.get('promoted', [])
+        for gb in g['blocks']:
+            nb = _bump({'stmts': gb['stmts'], 'term': gb['term']}, loff)
+            nb['cleanup'] = gb['cleanup']
+            # promoted constants of the callee
+            def fixp(x):
+                if isinstance(x, dict):
+                    if x.get('k') == 'const' and 'promoted' in x:
+                        return dict(x, promoted=x['promoted'] + poff)
+                    return dict((k, fixp(v)) for k, v in x.items())
+                if isinstance(x, list):
+                    return [fixp(v) for v in x]
+                return x
+            nb = fixp(nb)
+            tt = dict(nb['term'])
+            k = tt['k']
+            if k in ('goto', 'drop', 'assert'):
+                tt['target'] += boff
+            if k == 'call' and tt.get('target') is not None:
+                tt['target'] += boff
+            if k == 'switch':
+                tt['targets'] = [[v, tb + boff] for v, tb in tt['targets']]
+                tt['otherwise'] += boff
+            if isinstance(tt.get('unwind'), int):
+                tt['unwind'] += boff
+            if k == 'return':
+                st = {'k': 'assign', 'lhs': t['dest'],
+                      'rv': {'k': 'use', 'op': {'k': 'move', 'place': {'l': loff, 'p': []}}},
+                      'span': t['span'], 'exp': False}
+                nb['stmts'] = nb['stmts'] + [st]
+                tt = {'k': 'goto', 'target': t['target'], 'span': t['span'], 'exp': False} \
+                    if t['target'] is not None else {'k': 'unreachable', 'span': t['span'], 'exp': False}
+            nb['term'] = tt
+            blocks.append(nb)
+        # the call block: bind the parameters, jump to the callee's entry
+        binds = []
+        for ai, a in enumerate(t['args']):
+            binds.append({'k': 'assign', 'lhs': {'l': loff + 1 + ai, 'p': []}, 'rv': {'k': 'use', 'op': a},
+                          'span': t['span'], 'exp': False})
+        blocks[bi] = dict(blocks[bi], stmts=blocks[bi]['stmts'] + binds,
+                          term={'k': 'goto', 'target': boff, 'span': t['span'], 'exp': False})
+    nj = dict(j, blocks=blocks, locals=locals_, promoted=promoted)
+    nj['inlined'] = sorted(set(j['blocks'][bi]['term']['callee'] for bi in todo))
+    return nj
+
+
 class Facts:
     def __init__(self, path):
         with open(path) as f:
             self.j = json.load(f)
         self.path = path
         self.bodies = {}
+        raw = dict((b['path'], b) for b in self.j['bodies'])
+        unknown = set()
+        kf = os.path.join(os.path.dirname(os.path.abspath(__file__)), 'known_functions.json')
+        if os.path.exists(kf):
+            known = set(json.load(open(kf)))
+            unknown = set(p for p, b in raw.items() if b['kind'] != 'Closure' and p not in known)
+        self.unknown_functions = unknown
+        self.inlined = {}
         for b in self.j['bodies']:
-            self.bodies[b['path']] = Body(self, b)
+            jb = inline_new_callees(raw, b, unknown) if unknown else b
+            if jb is not b:
+                self.inlined[b['path']] = jb['inlined']
+            self.bodies[b['path']] = Body(self, jb)
         self.adts = dict((a['path'], a) for a in self.j['adts'])
         self.impls = self.j['impls']
         self.items = dict((a['path'], a) for a in self.j['items'])
